@@ -155,23 +155,25 @@ def run(ctx):
     ctx.generators["entry_code_raise_points"] = {"cases": nentry}
 
     # ---- a raise point before the first render function runs: locating the inherited templates ----------------------------
-    for what, main_src in [("missing-base", '<%inherit file="/nope.html"/>hi'), ("raising-inherit-expression", "<%inherit file=\"${1/0}\"/>hi"),
-                           ("missing-base-of-base", '<%inherit file="/mid.html"/>hi')]:
+    for what, main_src in [("missing-base", '<%inherit file="/nope.html"/>hi<%def name="d()">D</%def>'), ("raising-inherit-expression", "<%inherit file=\"${1/0}\"/>hi<%def name=\"d()\">D</%def>"),
+                           ("missing-base-of-base", '<%inherit file="/mid.html"/>hi<%def name="d()">D</%def>')]:
+      for entry in ["render", "get_def"]:       # the whole template, or one def of it through get_def(name).render()
         for mode in ["format_exceptions", "error_handler"]:
             ctx.evaluations += 1
-            ctx.nontrivial.add(("inherit-setup", what, mode))
+            ctx.nontrivial.add(("inherit-setup", what, mode, entry))
             seen = []
             lk = TemplateLookup(format_exceptions=True) if mode == "format_exceptions" else TemplateLookup(error_handler=lambda c_, e_: seen.append(type(e_).__name__) or True)
             lk.put_string("/mid.html", '<%inherit file="/nope.html"/>${next.body()}')
             lk.put_string("/main.html", main_src)
             try:
-                out = lk.get_template("/main.html").render_unicode()
+                t_main = lk.get_template("/main.html")
+                out = t_main.render_unicode() if entry == "render" else t_main.get_def("d").render_unicode()
                 res = "error page" if "Mako Runtime Error" in out else ("handled " + ",".join(seen) if seen else "output " + out[:40])
             except Exception as e:  # noqa
                 res = "raised %s" % type(e).__name__
             want_ok = res == "error page" if mode == "format_exceptions" else res.startswith("handled ")
             if not want_ok:
-                ctx.violation({"template": main_src, "mode": mode, "result": res}, "an exception raised while the inherited templates are located is neither handled by error_handler nor rendered as an error page",
+                ctx.violation({"template": main_src, "mode": mode, "entry": entry, "result": res}, "an exception raised while the inherited templates are located is neither handled by error_handler nor rendered as an error page",
                               tags=["c13.inherit-setup"])
 
     # ---- format_exceptions through render_context: the page must reach the buffer the caller gave -----------------------------
